@@ -266,6 +266,12 @@ def typeDelete (table : String) (t : String) : Sql Unit := do
   | "material" => writeStmt (delMatType t)
   | _ => writeStmt (delIsoType t)
 
+/-- `isotherm_property_type_to_db` / `isotherm_property_types_from_db` / `isotherm_property_type_delete_db`: their single statement
+addresses the table `isotherm_properties_type`, which the schema (utilities/sqlite_db_pragmas.py) does not create: sqlite answers
+`OperationalError: no such table`, which `with_connection` does not translate (finding S39).  `what` names the entry point. -/
+def isoPropTypeOp (_what : String) : Sql Unit :=
+  writeStmt fun _ => .error .operational
+
 /-- the isotherm as `isotherm_to_db` sees it -/
 structure IsoIn where
   id : String
@@ -309,6 +315,7 @@ inductive Op
   | typeDelete (table t : String)
   | isoToDb (i : IsoIn) (autoMat autoAds : Bool)
   | isoDelete (id : String)
+  | isoPropTypeOp (what : String)
   deriving Repr
 
 def Op.body : Op → Sql Unit
@@ -320,6 +327,7 @@ def Op.body : Op → Sql Unit
   | .typeDelete tb t => Store.typeDelete tb t
   | .isoToDb i am aa => Store.isoToDb i am aa
   | .isoDelete id => Store.isoDelete id
+  | .isoPropTypeOp w => Store.isoPropTypeOp w
 
 inductive Outcome
   | ok | parsingError | otherError | died
